@@ -20,7 +20,7 @@ def run(ctx):
           [("MC_Geometry", "MC_Geometry_thorough", "theorems T1-T9, T13 (N<=12, R<=3)"), ("MC_Geometry", "MC_Geometry_thorough2", "theorems T1-T9, T13 (N<=8, R<=4)")]
     mcs.append(("MC_GeometryOrder", "MC_GeometryOrder" if q else "MC_GeometryOrder_thorough", "equality/containment theorems T10-T12, comparison operators T14"))
     pool = cf.ThreadPoolExecutor(4)
-    futs = [(m, cfg, what, pool.submit(lib.tlc, m, cfg=cfg, workers=4 if q else 8, timeout=2400, heap="4g" if q else "8g", tag=cfg)) for (m, cfg, what) in mcs]
+    futs = [(m, cfg, what, pool.submit(lib.tlc, m, cfg=cfg, workers=4 if q else 8, timeout=2400, heap="4g" if q else "5g", tag=cfg)) for (m, cfg, what) in mcs]
     vac = []
     if not q:
         # non-vacuity of T10-T12: the "never seen" invariants must be violated (a witness pair exists)
@@ -41,7 +41,7 @@ def run(ctx):
     chunks = []
     for t in traces:
         chunks += lib.split_trace(t, os.path.join(ctx.work, "chunks"), maxlines=25000)
-    res = lib.validate_parallel("Trace_Geometry", [c[0] for c in chunks], jobs=8 if q else 12, timeout=2400, heap="2g")   # 25 000-line chunks: a small heap is plenty
+    res = lib.validate_parallel("Trace_Geometry", [c[0] for c in chunks], jobs=8 if q else 10, timeout=2400, heap="2g")   # 25 000-line chunks: a small heap is plenty
     for (m, cfg, what, f) in futs:
         ctx.mc_must_pass(f.result(), "%s (%s)" % (what, cfg), m)
     for (cfg, f) in vac:
